@@ -1146,9 +1146,15 @@ def run_chunk(args):
     jobs, inputs_by_fam = args
     out, table = [], {}
     for j in jobs:
-        rec = replay_history(j["fam"], j["init"], j["steps"], inputs_by_fam[j["fam"]],
-                             check=j.get("check", "last"), sim=j.get("sim", True), pre=j.get("pre", False),
-                             pgs=j.get("pgs"))
+        try:
+            rec = replay_history(j["fam"], j["init"], j["steps"], inputs_by_fam[j["fam"]],
+                                 check=j.get("check", "last"), sim=j.get("sim", True), pre=j.get("pre", False),
+                                 pgs=j.get("pgs"))
+        except Exception:               # noqa: BLE001  (pymtl3 exceptions do not always survive pickling)
+            import traceback
+            out.append({"id": j["id"], "checks": [], "harness_error": traceback.format_exc()[-3000:],
+                        "job": {k: j[k] for k in ("fam", "init", "steps")}})
+            continue
         rec["id"] = j["id"]
         for c in rec["checks"]:
             o = c["obs"]
